@@ -237,7 +237,8 @@ func runC06(c *Ctx) {
 
 	const r6 = "C06.R6 shutdown never blocks on a client"
 	ruleNonBlocking(c, r6)
-	c.R.Floor(r6, 25)
+	ruleRecvHandOver(c, r6) // a closed rawsocket peer's receive goroutine ends
+	c.R.Floor(r6, 28)
 }
 
 // ruleMetaShutdownJoin: stopping the meta session does not depend on a message getting through. The meta procedure
